@@ -1,42 +1,168 @@
 import SeqVerif.Model.Chunking
 import SeqVerif.Model.FetchIDs
+import SeqVerif.Model.FetchIndex
+import SeqVerif.Model.FetchDocs
+import SeqVerif.Model.FetchDocsSpec
+import SeqVerif.Model.FetchFracs
+import SeqVerif.Model.FetchStream
+import SeqVerif.Model.FetchBytes
 import SeqVerif.Extracted.C04
 /-!
 # C04 - fetch returns each stored document verbatim; unknown IDs are just "not found"
 
-Only property theorems, extracted-fact obligations and non-vacuity examples live in this file.
-The model follows the code *with the two repairs of /verif/fixes/C04-*.patch*; the historical definitions
-(`calcChunkSize`, `findLIDs` as first written) are kept together with the witnesses that refute the property on them.
+Model (all in `SV.Fetch`, statement by statement after the Go code):
+`fetchStream` = `docsStream.batchLoader` (chunking, `calcChunkSize`) over `fetchDocs` = `Fetcher.FetchDocs`
+(`sortIDs`, `groupIDsByFraction`, per-fraction `fracFetch` with panic -> error, re-ordering through `reversPos`)
+over `Frac.fetch` = `DataProvider.Fetch` = `IndexFetch` (`GroupDocsOffsets`, one `ReadDocs` per block, scatter) over
+`GetDocPos` = sealed: `findLIDs` (windowed binary search) + `getDocPosByLIDs`; active: the positions map.
+A result is `(entries, how the stream ended)`; `crash` is the death of the process, `err` a failed request.
+
+Spec: `specDoc fracs ⟨id, hint⟩` = the document held under `id` by the (last) fraction admissible by the hint, or
+`none`.  Only property theorems, extracted-fact obligations and non-vacuity examples live in this file.
+The model follows the code *with* the two repairs (commits "fix: fetch chunk sizing ..." and "fix: sealed fetch
+probed past the ID table ..."); the definitions as first written are kept with the witnesses refuting them.
 -/
 namespace SV.Props.C04
 open SV SV.Fetch SV.Chunking
 
-/-- **every chunk size is at least one** (`docsStream.calcChunkSize`, for every `MaxFetchSizeBytes`, every batch of
-found / not-found entries and every previous size >= 1): the background loader never divides by zero and never
-asks for an empty chunk. -/
+variable {D : Type}
+
+/-- **C04, one batch.**  For every list of well-formed fractions (sealed or active, any number, overlapping or
+not), every non-empty request of distinct IDs in any order, with or without hints, present and absent IDs in any
+proportion: `FetchDocs` succeeds and returns, position by position, exactly the document the store holds under
+that ID, or the empty entry. -/
+theorem c04_fetch_eq_spec (bits : Nat) (P : Frac D → ID → Nat) (fracs : List (Frac D)) (ids : List IDS)
+    (hwf : ∀ f, f ∈ fracs → FracWF bits P f) (hnames : (fracs.map (·.name)).Nodup)
+    (hne : ids ≠ []) (hnd : (ids.map (·.id)).Nodup) :
+    fetchDocs bits fracs ids = .ok (ids.map (specDoc bits P fracs)) :=
+  fetchDocs_spec bits P fracs ids hwf hnames hne hnd
+
+/-- **C04, whole request.**  The streamed answer of the store (`batchLoader` with the adaptive chunk size over
+`FetchDocs`) is the per-ID spec for the whole request, the stream ends normally: no error, no crash, for every
+`MaxFetchSizeBytes`, every initial chunk size >= 1 and all document sizes. -/
+theorem c04_stream_eq_spec (bits maxFetch initSize : Nat) (len : D → Nat) (P : Frac D → ID → Nat)
+    (fracs : List (Frac D)) (ids : List IDS) (hinit : 1 ≤ initSize)
+    (hwf : ∀ f, f ∈ fracs → FracWF bits P f) (hnames : (fracs.map (·.name)).Nodup)
+    (hnd : (ids.map (·.id)).Nodup) :
+    fetchStream bits maxFetch initSize len fracs ids = (ids.map (specDoc bits P fracs), .done) :=
+  fetchStream_spec bits maxFetch initSize len P fracs ids hinit hwf hnames hnd
+
+/-- **an entry depends on its own ID only**: the same request entry gets the same answer in any two requests,
+whatever else they contain and wherever it stands (order, mix and proportion of absent IDs are irrelevant). -/
+theorem c04_entry_local (bits maxFetch initSize : Nat) (len : D → Nat) (P : Frac D → ID → Nat)
+    (fracs : List (Frac D)) (ids ids' : List IDS) (hinit : 1 ≤ initSize)
+    (hwf : ∀ f, f ∈ fracs → FracWF bits P f) (hnames : (fracs.map (·.name)).Nodup)
+    (hnd : (ids.map (·.id)).Nodup) (hnd' : (ids'.map (·.id)).Nodup)
+    (i j : Nat) (hi : i < ids.length) (hj : j < ids'.length) (heq : ids[i] = ids'[j]) :
+    (fetchStream bits maxFetch initSize len fracs ids).1[i]? =
+      (fetchStream bits maxFetch initSize len fracs ids').1[j]? := by
+  rw [c04_stream_eq_spec bits maxFetch initSize len P fracs ids hinit hwf hnames hnd,
+    c04_stream_eq_spec bits maxFetch initSize len P fracs ids' hinit hwf hnames hnd']
+  simp [hi, hj, heq]
+
+/-- **an ID no admissible fraction holds is just "not found"** -/
+theorem c04_absent_not_found (bits : Nat) (P : Frac D → ID → Nat) (fracs : List (Frac D)) (s : IDS)
+    (h : ∀ f, f ∈ fracs → hintOK s f = true → holds bits P f s.id = none) : specDoc bits P fracs s = none := by
+  induction fracs with
+  | nil => rfl
+  | cons f t ih =>
+    rw [specDoc, ih (fun x hx => h x (by simp [hx]))]
+    by_cases hh : hintOK s f = true
+    · simp [hh, h f (by simp) hh]
+    · simp [hh]
+
+/-- **a stored ID is found**: when exactly one admissible fraction holds the ID the entry is its document -/
+theorem c04_present_found (bits : Nat) (P : Frac D → ID → Nat) (pre post : List (Frac D)) (f : Frac D) (s : IDS)
+    (d : D) (hh : hintOK s f = true) (hd : holds bits P f s.id = some d)
+    (hpost : ∀ g, g ∈ post → hintOK s g = true → holds bits P g s.id = none) :
+    specDoc bits P (pre ++ f :: post) s = some d := by
+  induction pre with
+  | nil =>
+    rw [List.nil_append, specDoc, c04_absent_not_found bits P post s hpost]
+    simp [hh, hd]
+  | cons g t ih => rw [List.cons_append, specDoc, ih]; rfl
+
+/-- **chunking is transparent** for any chunk-size function whose values are at least one -/
+theorem c04_chunking_transparent {I : Type} (fetch : List I → Res (List (Option D)))
+    (csize : List Nat → Nat → Option Nat) (len : D → Nat) (g : I → Option D) (Q : List I → Prop)
+    (hQtake : ∀ l n, Q l → Q (l.take n)) (hQdrop : ∀ l n, Q l → Q (l.drop n))
+    (hfetch : ∀ c, c ≠ [] → Q c → fetch c = .ok (c.map g))
+    (hcalc : ∀ l s, 1 ≤ s → ∃ n, 1 ≤ n ∧ csize l s = some n)
+    (fuel : Nat) (ids : List I) (size : Nat) (hs : 1 ≤ size) (hf : ids.length ≤ fuel) (hq : Q ids) :
+    batchLoader fetch csize len fuel ids size = (ids.map g, .done) :=
+  batchLoader_transparent fetch csize len g Q hQtake hQdrop hfetch hcalc fuel ids size hs hf hq
+
+/-- **every chunk size is at least one** (`docsStream.calcChunkSize`, for every `MaxFetchSizeBytes`, every batch
+of found / not-found entries and every previous size >= 1): the loader never divides by zero and never asks for
+an empty chunk. -/
 theorem c04_calcChunkSize_pos (maxFetch : Nat) (lens : List Nat) (prev : Nat) (hp : 1 ≤ prev) :
     1 ≤ calcFixed maxFetch lens prev := calcFixed_pos maxFetch lens prev hp
-
-/-- historical witness: before the repair, two absent IDs next to a 2-byte document divide by zero -/
-theorem c04_calcChunkSize_old_div_zero : calcChunkSize 4194304 [2, 0, 0] 1000 = none := by decide
-/-- historical witness: before the repair, an average above `MaxFetchSizeBytes` gives an empty next chunk -/
-theorem c04_calcChunkSize_old_zero : calcChunkSize 4194304 [5242880] 1000 = some 0 := by decide
 
 /-- **the ID lookup of a sealed fraction never probes past the ID table** and returns, for IDs in any order,
 present or absent, the LID holding the ID or 0. -/
 theorem c04_findLIDs_in_table (t : List ID) (hd : Desc t) (hne : 2 ≤ t.length) (ids : List ID) :
     findLIDsFixed t ids = some (ids.map (lidOf t)) := findLIDsFixed_spec t hd hne ids
 
-/-- historical: the loop as first written is correct exactly when no ID is below every stored ID ... -/
+/-- `IndexFetch` (grouping by block, one read per block, scatter) is the position-wise map -/
+theorem c04_indexFetch_eq_map (bits : Nat) (readDoc : Nat → Nat → D) (ps : List Nat) :
+    indexFetch bits readDoc ps = ps.map (posDoc bits readDoc) := indexFetch_spec bits readDoc ps
+
+/-- a sealed fraction (strictly descending ID table behind the system ID, range filters accepting its own IDs)
+satisfies the hypotheses of the theorems above -/
+theorem c04_sealed_wf (bits : Nat) (P : Frac D → ID → Nat) (name : Nat) (contains : Nat → Bool)
+    (intersects : Nat → Nat → Bool) (t : List ID) (pos : List Nat) (readDoc : Nat → Nat → D)
+    (hd : Desc t) (hne : 2 ≤ t.length)
+    (hP : P (sealedFrac name contains intersects t pos readDoc) = sealedPosOf t pos)
+    (hc : ∀ id, lidOf t id ≠ 0 → contains id.mid = true)
+    (hi : ∀ id lo hi, lidOf t id ≠ 0 → lo ≤ id.mid → id.mid ≤ hi → intersects lo hi = true) :
+    FracWF bits P (sealedFrac name contains intersects t pos readDoc) :=
+  sealedFrac_wf bits P name contains intersects t pos readDoc hd hne hP hc hi
+
+/-- so does an active fraction (positions map) -/
+theorem c04_active_wf (bits : Nat) (P : Frac D → ID → Nat) (name : Nat) (contains : Nat → Bool)
+    (intersects : Nat → Nat → Bool) (m : List (ID × Nat)) (readDoc : Nat → Nat → D)
+    (hP : P (activeFrac name contains intersects m readDoc) = mapGet m)
+    (hc : ∀ id, mapGet m id ≠ notFound → contains id.mid = true)
+    (hi : ∀ id lo hi, mapGet m id ≠ notFound → lo ≤ id.mid → id.mid ≤ hi → intersects lo hi = true) :
+    FracWF bits P (activeFrac name contains intersects m readDoc) :=
+  activeFrac_wf bits P name contains intersects m readDoc hP hc hi
+
+/-- `sealedIDsIndex.LessOrEqual` with its `MinBlockIDs` short cuts and the `RID = MaxUint64` short cut is the plain
+comparison with the table entry -/
+theorem c04_lessOrEqual_blocks (cap : Nat) (minBlock t : List ID) (hcap : 0 < cap) (hd : Desc t)
+    (hmin : MinBlocksOK cap minBlock t) (hrid : ∀ x, x ∈ t → x.rid ≤ 18446744073709551615) (lid : Nat) (id : ID) :
+    lessOrEqualBlk cap minBlock t lid id = lessOrEqual t lid id :=
+  lessOrEqualBlk_eq cap minBlock t hcap hd hmin hrid lid id
+
+/-- reading a position through the per-block tables (`GetParamsBlock`) is reading the flat table -/
+theorem c04_positions_by_blocks (cap : Nat) (hcap : 0 < cap) (pos : List Nat) (lid : Nat) :
+    posByBlocks cap (chunkN cap pos.length pos) lid = pos.getD lid notFound :=
+  posByBlocks_chunk cap hcap pos.length pos (Nat.le_refl _) lid
+
+/-- a document laid down as `len32le ++ bytes` anywhere in a block is read back verbatim -/
+theorem c04_extract_verbatim (pre d post : List Nat) (hlen : d.length < 4294967296) :
+    extractDoc (pre ++ encDoc d ++ post) pre.length = d := extractDoc_enc pre d post hlen
+
+/-! ## The definitions as first written, and why the property failed on them -/
+
+/-- before the repair, two absent IDs next to a 2-byte document divide by zero (process dies) -/
+theorem c04_calcChunkSize_old_div_zero : calcChunkSize 4194304 [2, 0, 0] 1000 = none := by decide
+/-- before the repair, an average above `MaxFetchSizeBytes` gives an empty next chunk (`sortIDs` indexes `ids[0]`) -/
+theorem c04_calcChunkSize_old_zero : calcChunkSize 4194304 [5242880] 1000 = some 0 := by decide
+/-- and the empty chunk is a crash of `FetchDocs`, for any fractions -/
+theorem c04_fetchDocs_empty_crashes (bits : Nat) (fracs : List (Frac D)) : fetchDocs bits fracs [] = .crash := rfl
+
+/-- the loop as first written is correct exactly when no ID is below every stored ID ... -/
 theorem c04_findLIDs_old_partial (t : List ID) (hd : Desc t) (hne : 2 ≤ t.length) (ids : List ID)
     (hc : ∀ id, id ∈ ids → Covered t id) : findLIDs t ids = some (ids.map (lidOf t)) :=
   findLIDs_spec t hd hne ids hc
 /-- ... and panics (`GetMID(IDsTotal)`) as soon as one is -/
 theorem c04_findLIDs_old_panics (t : List ID) (hd : Desc t) (hne : 2 ≤ t.length) (ids : List ID)
     (hc : ∃ id, id ∈ ids ∧ ¬ Covered t id) : findLIDs t ids = none := findLIDs_panics t hd hne ids hc
-/-- historical witness: table [system, 5:9, 5:7], absent ID 5:3 (same timestamp as the fraction's `From`) -/
+/-- witness: table [system, 5:9, 5:7], absent ID 5:3 (the fraction's oldest timestamp, smaller random part) -/
 theorem c04_findLIDs_old_witness :
-    findLIDs [⟨18446744073709551615, 18446744073709551615⟩, ⟨5, 9⟩, ⟨5, 7⟩] [⟨5, 9⟩, ⟨5, 3⟩] = none := by decide
+    findLIDs [⟨18446744073709551615, 18446744073709551615⟩, ⟨5, 9⟩, ⟨5, 7⟩] [⟨5, 9⟩, ⟨5, 3⟩] = none :=
+  findLIDs_panics _ (by decide) (by decide) _ ⟨⟨5, 3⟩, by decide, by decide⟩
 
 /-! ## Obligations on facts re-extracted from /repo on every run -/
 open SV.Extracted.C04
@@ -50,6 +176,14 @@ theorem c04_x_calc_shape :
 /-- the first chunk size is at least one, so every chunk size is (`c04_calcChunkSize_pos`) -/
 theorem c04_x_init_chunk_pos : 1 ≤ initChunkSize ∧ 1 ≤ maxFetchSizeBytes := by decide
 
+/-- `batchLoader` has the shape `SV.Fetch.batchLoader` models: loop while IDs remain, cut `min(len, chunkSize)`,
+fetch, send the batch with its error, stop on error, recompute the size from the batch -/
+theorem c04_x_batchLoader_shape :
+    batchLoaderOps = ["chunkSize := initChunkSize", "for len(d.ids) > 0", "l := min(len(d.ids), chunkSize)",
+      "chunk := d.ids[:l]", "d.ids = d.ids[l:]", "docs, err := d.fetcher.FetchDocs(d.ctx, d.fracs, chunk)",
+      "d.out <- streamDocsBatch{docs: docs, err: err}", "if err != nil { return }",
+      "chunkSize = d.calcChunkSize(docs, chunkSize)"] := by decide
+
 /-- `findLIDs` has the shape `findLIDsFixedGo` models, in particular the guarded equality probe -/
 theorem c04_x_findLIDs_shape :
     findLIDsOps = ["left := 1", "right := di.idsIndex.Len() - 1", "for i, id := range ids",
@@ -58,11 +192,88 @@ theorem c04_x_findLIDs_shape :
       "if int(lid) <= right && id.MID == di.idsIndex.GetMID(lid) && id.RID == di.idsIndex.GetRID(lid)",
       "res[i] = lid", "left = int(lid)"] := by decide
 
-/-! ## Non-vacuity -/
+/-- a panic inside one fraction's fetch is recovered into the batch error (`Res.err` in the model), and
+`FetchDocs` groups, fetches, then arranges -/
+theorem c04_x_fetch_structure :
+    fracFetchRecovers = true ∧ fetchDocsCalls = ["groupIDsByFraction", "f.fetchDocsAsync", "make"] := by decide
+
+/-- position packing at the extracted `docOffsetBits`: every (block, offset) the writer can produce is read back,
+and never collides with `DocPosNotFound` -/
+theorem c04_x_docpos_roundtrip (block off : Nat) (ho : off < 2 ^ docOffsetBits) (hb : block < 4294967296) :
+    unpackDocPos docOffsetBits (packDocPos docOffsetBits block off) = (block, off) ∧
+      packDocPos docOffsetBits block off ≠ docPosNotFound := by
+  have hbits : docOffsetBits = 30 := rfl
+  rw [hbits] at ho ⊢
+  have h30 : (2 : Nat) ^ 30 = 1073741824 := by decide
+  rw [h30] at ho
+  refine ⟨unpack_pack 30 block off (by rw [h30]; exact ho) hb (by rw [h30]; omega), ?_⟩
+  have := pack_ne_notFound 30 block off (by rw [h30]; omega)
+  exact this
+
+/-! ## Non-vacuity: two concrete fractions satisfy the hypotheses, the theorems compute their answers -/
+
+section Example
+/-- sealed fraction 1: table [system, 5:9, 5:7, 3:3], positions by LID; active fraction 2: map {6:6, 7:1} -/
+def exT : List ID := [⟨100, 100⟩, ⟨5, 9⟩, ⟨5, 7⟩, ⟨3, 3⟩]
+def exPos : List Nat := [0, packDocPos 30 0 0, packDocPos 30 0 40, packDocPos 30 1 8]
+def exMap : List (ID × Nat) := [(⟨6, 6⟩, packDocPos 30 0 4), (⟨7, 1⟩, packDocPos 30 2 0)]
+def exF1 : Frac (Nat × Nat × Nat) :=
+  sealedFrac 1 (fun m => 3 ≤ m ∧ m ≤ 5) (fun lo hi => lo ≤ 5 ∧ 3 ≤ hi) exT exPos (fun b o => (1, b, o))
+def exF2 : Frac (Nat × Nat × Nat) :=
+  activeFrac 2 (fun m => 6 ≤ m ∧ m ≤ 7) (fun lo hi => lo ≤ 7 ∧ 6 ≤ hi) exMap (fun b o => (2, b, o))
+def exP (f : Frac (Nat × Nat × Nat)) : ID → Nat := if f.name = 1 then sealedPosOf exT exPos else mapGet exMap
+
+/-- non-vacuity of `c04_sealed_wf` -/
+theorem c04_example_sealed_wf : FracWF 30 exP exF1 := by
+  apply c04_sealed_wf 30 exP 1 _ _ exT exPos _ (by decide) (by decide) (by rfl)
+  · intro id h
+    have := lidOf_mem exT id h
+    simp only [exT, List.mem_cons, List.not_mem_nil, or_false] at this
+    rcases this with rfl | rfl | rfl | rfl
+    · exact absurd (by decide) h
+    all_goals decide
+  · intro id lo hi h h1 h2
+    have := lidOf_mem exT id h
+    simp only [exT, List.mem_cons, List.not_mem_nil, or_false] at this
+    rcases this with rfl | rfl | rfl | rfl
+    · exact absurd (by decide) h
+    all_goals (simp at h1 h2 ⊢; omega)
+
+/-- non-vacuity of `c04_active_wf` -/
+theorem c04_example_active_wf : FracWF 30 exP exF2 := by
+  apply c04_active_wf 30 exP 2 _ _ exMap _ (by rfl)
+  · intro id h
+    have := mapGet_mem exMap id h
+    simp only [exMap, List.map_cons, List.map_nil, List.mem_cons, List.not_mem_nil, or_false] at this
+    rcases this with rfl | rfl <;> decide
+  · intro id lo hi h h1 h2
+    have := mapGet_mem exMap id h
+    simp only [exMap, List.map_cons, List.map_nil, List.mem_cons, List.not_mem_nil, or_false] at this
+    rcases this with rfl | rfl <;> (simp at h1 h2 ⊢; omega)
+
+/-- a request mixing present IDs, an absent ID below everything in fraction 1 (the old crash input), a hinted ID
+and an absent one above everything: streamed in chunks of size 2 -/
+example :
+    fetchStream 30 4194304 2 (fun _ => 2) [exF1, exF2]
+      [⟨⟨5, 7⟩, none⟩, ⟨⟨3, 2⟩, none⟩, ⟨⟨7, 1⟩, some 2⟩, ⟨⟨9, 9⟩, none⟩, ⟨⟨3, 3⟩, some 1⟩] =
+    ([some (1, 0, 40), none, some (2, 2, 0), none, some (1, 1, 8)], .done) := by
+  rw [c04_stream_eq_spec 30 4194304 2 _ exP [exF1, exF2] _ (by decide)
+    (by intro f hf; simp only [List.mem_cons, List.not_mem_nil, or_false] at hf; rcases hf with rfl | rfl
+        · exact c04_example_sealed_wf
+        · exact c04_example_active_wf)
+    (by decide) (by decide)]
+  decide
+end Example
 
 example : Desc [⟨100, 100⟩, ⟨5, 9⟩, ⟨5, 7⟩, ⟨3, 3⟩] := by decide
-example : findLIDsFixed [⟨100, 100⟩, ⟨5, 9⟩, ⟨5, 7⟩, ⟨3, 3⟩] [⟨5, 7⟩, ⟨5, 8⟩, ⟨3, 2⟩, ⟨9, 9⟩] = some [2, 0, 0, 0] := by decide
+example : findLIDsFixed [⟨100, 100⟩, ⟨5, 9⟩, ⟨5, 7⟩, ⟨3, 3⟩] [⟨5, 7⟩, ⟨5, 8⟩, ⟨3, 2⟩, ⟨9, 9⟩] = some [2, 0, 0, 0] := by
+  rw [c04_findLIDs_in_table _ (by decide) (by decide)]; decide
 example : Covered [⟨100, 100⟩, ⟨5, 9⟩, ⟨5, 7⟩] ⟨5, 8⟩ ∧ ¬ Covered [⟨100, 100⟩, ⟨5, 9⟩, ⟨5, 7⟩] ⟨5, 3⟩ := by decide
 example : calcFixed 4194304 [2, 0, 0] 1000 = 4194304 ∧ calcFixed 4194304 [5242880] 1000 = 1 := by decide
+example : MinBlocksOK 2 [⟨5, 9⟩, ⟨3, 3⟩] [⟨100, 100⟩, ⟨5, 9⟩, ⟨5, 7⟩, ⟨3, 3⟩] := by
+  intro b hb
+  have : b = 0 ∨ b = 1 := by simp at hb; omega
+  rcases this with rfl | rfl <;> decide
+example : extractDoc ([9, 9] ++ encDoc [97, 98, 99] ++ [1]) 2 = [97, 98, 99] := by decide
 
 end SV.Props.C04
